@@ -37,7 +37,8 @@ ANCHORS = ['recursiveloader:ManifestRecursiveLoader.assert_directory_verifies',
            'cli:VerifyCommand.__call__']
 REQUIRED = ['recursiveloader:ManifestRecursiveLoader.assert_directory_verifies',
             'expect:accept', 'expect:reject', 'contract:path_starts_with',
-            'skipset_checked', 'cli_runs', 'keepgoing_runs', 'history_reverifications']
+            'skipset_checked', 'cli_runs', 'keepgoing_runs', 'history_reverifications',
+            'cli_two_tree_runs']
 ASSUMPTIONS = ['zones U1-U4, U10, U11 are unconstrained (see DESIGN.md 1.1)',
                'permission-based unreadability is C06']
 
@@ -297,6 +298,25 @@ def judge(ctx, root, case):
         elif constrained and (rc == 0) != lib_ok and not isinstance(rc, str):
             ctx.violation('cli-lib-disagree', 'CLI exit %r but library %s'
                           % (rc, 'succeeded' if lib_ok else 'failed'), case, detail)
+    if cli_ok and expect == 'reject' and not sub:
+        # several trees on one command line: a clean one first, then this one
+        other = os.path.join(os.path.dirname(root), 'other-tree')
+        os.makedirs(os.path.join(other, 'sub'), exist_ok=True)
+        with open(os.path.join(other, 'sub', 'x'), 'w') as f:
+            f.write('x')
+        with open(os.path.join(other, 'Manifest'), 'w') as f:
+            f.write(mtext.render([mtext.file_entry('DATA', 'sub/x', b'x', ['SHA256'])]))
+        from gemato import cli as gcli
+        try:
+            rc2 = gcli.main(['gemato', 'verify', '-P', other, root])
+        except SystemExit as exc:
+            rc2 = 'exit:%r' % (exc.code,)
+        except Exception as exc:
+            rc2 = exc
+        ctx.count('cli_two_tree_runs')
+        if rc2 == 0:
+            ctx.violation('cli-exit0-on-mismatch:second-tree', '`gemato verify CLEAN '
+                          'THIS` exits 0 although this tree does not match', case, detail)
     if expect == 'accept' and last_mtime is None:
         judge_history(ctx, root, case, res)
 
